@@ -60,6 +60,9 @@ class C15(core.Check):
         out.append(("sseq", (("close", b"data: x\r", (), None, ()), ("close", b"\ndata: y\n\n", (), None, ()))))
         out.append(("sseq", (("chunked", b, (3, 5), hp.chunk_boundaries(b, (3, 5))[2], ()), ("chunked", b, (7,), None, ()), ("close", b"data: z\n\n", (), None, ()))))
         out.append(("sseq", (("close", b"id: 9\nretry: 3\ndata: q\n\nda", (), None, ()), ("close", b"data: no id here\n\n", (), None, ()), ("close", b"id\ndata: r\n\n", (), None, ()))))
+        for st in (b"\xef\xbb\xbfdata: bom\n\n", b"data: nobom\n\nid: 3\ndata: x\r\n\r\n", b"\xef\xbb", b"\xef\xbb\xbf", b"da", b"\xef\xbb\xbf\xef\xbb\xbfdata: two\n\n"):
+            out.append(("sses", st, ()))
+            out.append(("sses", st, tuple(range(1, len(st)))))
         out.append(("sse", b"data: a\r", ()))
         out.append(("sse", b"data: a\r\n", (7,)))       # F18: CR | LF
         out.append(("sse", b"retry: " + b"1" * 4400 + b"\ndata: z\n\n", (10,)))
@@ -102,7 +105,10 @@ class C15(core.Check):
                 continue
             for _ in range(rng.choice([1, 2])):
                 k = rng.random()
-                if k < 0.4:
+                if k < 0.08:         # the other public parser of EventSource, with and without a BOM
+                    st = (b"\xef\xbb\xbf" if rng.random() < 0.5 else b"") + s
+                    yield ("sses", st, hp.cuts_for(rng, st))
+                elif k < 0.4:
                     yield ("sse", s, hp.cuts_for(rng, s))
                 else:
                     mode = "close" if k < 0.7 else "chunked"
@@ -132,7 +138,9 @@ class C15(core.Check):
 
     def _got(self, case, part):
         """(events, leid, retry) the client delivered, in WHATWG terms, or None when nothing evented was parsed"""
-        if case[0] == "sse":
+        if case[0] in ("sse", "sses"):
+            if not isinstance(part, (tuple, list)) or len(part) != 5:
+                return None
             ev, leid, retry, esc, _ = part
             return ([_ev(e) for e in ev], leid if leid is not None else b"", retry)
         out, tail, pend = part
@@ -210,9 +218,29 @@ class C15(core.Check):
             bad.append("client-retry")
         return bad
 
+    @hp.total
     def oracle(self, case, obs):
         if case[0] == "sseq":
             return self._oracle_seq(case, obs)
+        if case[0] == "sses":
+            bad = []
+            cut, whole = obs
+            if cut != whole:
+                bad.append("fragmented-differs-from-whole")
+            if cut[3] is not None:
+                bad.append("exception-escaped")
+                return bad
+            st = case[1]
+            if len(st) < 3:
+                return bad
+            exp = hp.whatwg_events(st[3:] if st[:3] == b"\xef\xbb\xbf" else st, want_set=True)
+            if [_ev(e) for e in cut[0]] != exp[0]:
+                bad.append("events-differ-from-stream")
+            if cut[1] != exp[1]:
+                bad.append("last-event-id")
+            if cut[2] != exp[2]:
+                bad.append("retry")
+            return bad
         bad = []
         cut, whole = obs
         if cut != whole:
@@ -234,12 +262,14 @@ class C15(core.Check):
             bad.append("retry")
         return bad
 
+    @hp.safe(True)
     def nontrivial(self, case, obs):
         if case[0] == "sseq":
             return sum(len(m[11] or ()) for res, _ in obs[0] for m in res if m[0] == "ok") >= 1
         g = self._got(case, obs[0])
         return bool(hp.case_cuts(case)) and g is not None and len(g[0]) >= 1
 
+    @hp.safe(list)
     def features(self, case, obs):
         if case[0] == "sseq":
             f = ["sseq", f"sseq:streams:{len(case[1])}"]
@@ -252,8 +282,8 @@ class C15(core.Check):
                     inside = mode == "chunked" and drop not in hp.chunk_boundaries(stream, sizes)
                     f.append("sseq:drop:" + mode + (":inside-chunk" if inside else ":after-cr" if last == b"\r" else ":line-end" if last == b"\n" else ":mid-line"))
             return f
-        f = [case[0] if case[0] == "sse" else "sser:" + case[1]]
-        s = case[1] if case[0] == "sse" else case[2]
+        f = [case[0] if case[0] in ("sse", "sses") else "sser:" + case[1]]
+        s = case[1] if case[0] in ("sse", "sses") else case[2]
         g = self._got(case, obs[0])
         f.append(f"events:{min(len(g[0]), 4) if g else 'none'}")
         cuts = hp.case_cuts(case) or ()
@@ -275,6 +305,7 @@ class C15(core.Check):
     def shrink(self, case):
         return hp.shrink_case(case)
 
+    @hp.safe(list)
     def mutate(self, rng, case):
         if case[0] == "sseq":
             return list(hp.shrink_case(case))[:40]
@@ -282,7 +313,7 @@ class C15(core.Check):
         d = hp.case_data(case)
         for st in ("ones", "term", "uniform", "two"):
             lst = list(case)
-            lst[2 if case[0] == "sse" else 4] = hp.cuts_for(rng, d, st)
+            lst[2 if case[0] in ("sse", "sses") else 4] = hp.cuts_for(rng, d, st)
             out.append(tuple(lst))
         return out
 
